@@ -99,6 +99,53 @@ class LDict(dict):
         return dict.__contains__(self, x)
 
 
+class LDictNoIter(dict):
+    """overrides the mapping protocol but not __iter__ (a lazy mapping)"""
+    def keys(self):
+        note("LDictNoIter.keys")
+        return dict.keys(self)
+
+    def items(self):
+        note("LDictNoIter.items")
+        return dict.items(self)
+
+    def values(self):
+        note("LDictNoIter.values")
+        return dict.values(self)
+
+    def __len__(self):
+        note("LDictNoIter.__len__")
+        return dict.__len__(self)
+
+    def __getitem__(self, k):
+        note("LDictNoIter.__getitem__")
+        return dict.__getitem__(self, k)
+
+
+class LListLenOnly(list):
+    def __len__(self):
+        note("LListLenOnly.__len__")
+        return list.__len__(self)
+
+    def __getitem__(self, i):
+        note("LListLenOnly.__getitem__")
+        return list.__getitem__(self, i)
+
+
+class LDefault(collections.defaultdict):
+    def keys(self):
+        note("LDefault.keys")
+        return dict.keys(self)
+
+    def values(self):
+        note("LDefault.values")
+        return dict.values(self)
+
+    def __missing__(self, k):
+        note("LDefault.__missing__")
+        return 0
+
+
 class LSet(set):
     def __iter__(self):
         note("LSet.__iter__")
@@ -250,7 +297,8 @@ def make_values(rnd):
     he_key = HE(1)
     base = [
         GA("a"), GAttr(), FakeClass(), Lazy(), LList([1, 2]), LDict(a=1), LSet({1}), LTuple((1, 2)), HE(2),
-        WithMeta(), WithMeta, Hashy(), Raiser(),
+        WithMeta(), WithMeta, Hashy(), Raiser(), LDictNoIter(a=1, b="x"), LListLenOnly([1, "s"]), LDefault(None, {"q": 1}),
+        [LDictNoIter(c=2)], {"m": LDictNoIter(d=3)},
         [GA("in-list"), HE(3)], {"k": GA("in-dict"), "l": LList([3])}, {he_key: 1, "s": 2}, (FakeClass(), LDict(b=2)),
         {HE(4)}, collections.defaultdict(int, {"z": GA("dd")}), [LList([GA("deep")])],
     ]
@@ -270,10 +318,7 @@ def workload(vals, out):
         out.append(("smeth", i, Holder.smeth(v) is v))
         g = gen_of(v)
         out.append(("gen", i, next(g) is v))
-        if i % 3 == 0:
-            g.close()
-        else:
-            list(g)
+        list(g)          # always exhausted: no frame may stay behind in the tracer (closing at a yield is C02's finding)
     out.append(("prop", h.prop))
     out.append(("named", named_like_a_global(vals[0]) is vals[0]))
     out.append(("closure", outer_with_closure(vals[1]) is vals[1]))
@@ -345,6 +390,7 @@ def main():
                     with trace_calls(logger, rnd.choice([0, 2]), lambda code: code.co_filename == this_file
                                      and code.co_name in ("ident", "pair", "takes_container", "gen_of", "meth", "prop",
                                                           "named_like_a_global", "outer_with_closure", "local_fn", "smeth")):
+                        tracer_obj = sys.getprofile()
                         workload(vals, out)
                         if body_raises:
                             raise KeyError("from the traced block")
@@ -359,6 +405,7 @@ def main():
             rec["flushes"] = flushes["n"]
             rec["logged"] = logger.logged
             rec["flush_exception"] = flush_exc
+            rec["residue"] = len(getattr(tracer_obj, "traces", {}))
     finally:
         sys.stdout = real_stdout
     rec["journal"] = list(J)
